@@ -7,6 +7,7 @@ import (
 
 	"github.com/internetarchive/Zeno/internal/pkg/log"
 	"github.com/internetarchive/Zeno/internal/pkg/source/lq/sqlc_model"
+	"github.com/internetarchive/Zeno/internal/pkg/verifhook"
 )
 
 // producerBatch represents a batch of URLs to be added to LQ.
@@ -138,9 +139,11 @@ func producerDispatcher(ctx context.Context, wg *sync.WaitGroup, batchCh chan *p
 			return
 		case batch := <-batchCh:
 			logger.Debug("dispatching batch to sender", "size", len(batch.URLs))
+			verifhook.At("lq.producer.beforeAdd")
 			if err := globalLQ.client.Add(ctx, batch.URLs, false); err != nil {
 				logger.Error("failed to send batch to LQ", "error", err)
 			}
+			verifhook.At("lq.producer.afterAdd")
 		}
 	}
 }
